@@ -1,4 +1,4 @@
-CONSTANTS DEPTH = 2  N = 3  D = 2  K = 2  TMAX = 12  FIXTO = FALSE
+CONSTANTS DEPTH = 2  N = 3  D = 2  K = 2  TMAX = 12  BLIND = {}  FIXTO = FALSE
 SPECIFICATION Spec
 INVARIANTS BoundedDelay
 CHECK_DEADLOCK FALSE
